@@ -2,7 +2,7 @@
 from checks._common import ASSUMPTIONS_TRANSPORT, COMPONENTS_TRANSPORT, plan
 from checks.wire_oracles import C13Oracle
 from sim.goals import DeliveryGoal
-from sim.harness import run_transport
+from sim.harness import run_resumed, run_transport
 
 PROPERTY = "C13"
 NAME = "c13"
@@ -18,7 +18,7 @@ ASSUMPTIONS = ASSUMPTIONS_TRANSPORT + [
     "PATH_RESPONSE from the address); an implementation that validates later is merely stricter",
 ]
 COMPONENTS = COMPONENTS_TRANSPORT
-PLAN = plan(60, 900, ["handshake", "handshake", "migration", "fault_free"])
+PLAN = plan(60, 900, ["handshake", "handshake", "migration", "fault_free", "zero_rtt"])
 
 SIZES = (1200, 1200, 1252, 1350, 1472, 1280, 1400)
 PROFILES = {
@@ -27,6 +27,8 @@ PROFILES = {
     "migration": {"faults": ("drop", "dup", "delay", "spoof", "rebind", "blackout", "timer-late"),
                   "datagram_sizes": SIZES, "server_certs": True},
     "fault_free": {"fault_free": True, "datagram_sizes": SIZES, "server_certs": True},
+    "zero_rtt": {"faults": ("drop", "dup", "delay", "blackout", "timer-late"), "datagram_sizes": SIZES,
+                 "t_adv_max": 3.0, "max_ops": 5},
 }
 
 
@@ -44,5 +46,11 @@ def run_one(seed, tier="quick", variant=None, replay=None):
         s["probes"]["amplification_ratio_above_2.5"] = 1 if o.max_ratio_seen > 2.5 else 0
         s["probes"]["unvalidated_addresses_served"] = len([a for a in o.sent_to if a not in o.validated])
 
+    if variant == "zero_rtt":
+        # resumed connection whose 0-RTT data fills (part of) the congestion window before the
+        # handshake finishes, first flights exposed to loss
+        sizes = ((5000, False), (12000, False), (3000, True), (20000, False))[seed % 4]
+        return run_resumed(seed, replay, PROFILES[variant], make, variant, early_writes=[sizes],
+                           extra_summary=extra)
     return run_transport(seed, PROFILES[variant], make, replay=replay, monitor=True, variant=variant,
                          extra_summary=extra)
